@@ -386,8 +386,8 @@ class KMIPProxy(object):
         if batch_item.result_status.value != enums.ResultStatus.SUCCESS:
             raise exceptions.OperationFailure(
                 batch_item.result_status.value,
-                batch_item.result_reason.value,
-                batch_item.result_message.value
+                getattr(batch_item.result_reason, 'value', None),
+                getattr(batch_item.result_message, 'value', None)
             )
 
         if batch_item.operation.value != operation:
